@@ -3,7 +3,7 @@
    tables goextract read from apkindex.go / package.go / installed.go /
    passwd.go / group.go on this run (Generated/FieldLetters.v). *)
 From Apko Require Import Base.Prelude Base.C16Lib Model.Formats Spec.FormatsSpec
-  Proofs.FormatsProofs Generated.FieldLetters.
+  Proofs.FormatsProofs Proofs.FormatsPasswd Generated.FieldLetters.
 
 (* the APKINDEX template in the source is the one the theorems are about *)
 Theorem c16_index_template_pinned :
@@ -105,3 +105,80 @@ Proof.
   split; [vm_compute; tauto | reflexivity].
 Qed.
 Print Assumptions c16_installed_fixpoint_dup_dir_refuted.
+
+Open Scope string_scope. Open Scope list_scope.
+(* ---- passwd / group --------------------------------------------------------
+   The formats, separators and part counts read from passwd.go / group.go on
+   this run are the ones the theorems below are about. *)
+Theorem c16_passwd_formats_pinned :
+  passwd_format = ("%s:%s:%d:%d:%s:%s:%s" +++ s_nl) /\ group_format = ("%s:%s:%d:%s" +++ s_nl) /\
+  group_member_sep = "," /\ passwd_split_seps = [":"] /\ group_split_seps = [":"; ","] /\
+  passwd_part_count = 7%nat /\ group_part_count = 4%nat.
+Proof. exact passwd_formats_pinned. Qed.
+Print Assumptions c16_passwd_formats_pinned.
+
+(* [user_ok]: no field contains ':' or LF; the name does not start and the shell
+   does not end with an ASCII blank (the reader applies strings.TrimSpace to the
+   line; a final CR counts as a blank); uid, gid < 2^32; the line fits bufio's
+   default token limit.  For EVERY list of such entries UserFile.Load returns
+   exactly what UserFile.Write was given, and writing that again reproduces the
+   file. *)
+Theorem c16_passwd_roundtrip :
+  forall us, Forall user_ok us ->
+  load_users (write_users us) = Ok us /\ UsersRoundTrip us (load_users (write_users us)) /\
+  (exists l, load_users (write_users us) = Ok l /\ write_users l = write_users us).
+Proof.
+  intros us H. split; [exact (users_roundtrip us H)|]. split; [exact (users_roundtrip us H)|exact (users_read_write_fixpoint us H)].
+Qed.
+Print Assumptions c16_passwd_roundtrip.
+
+Example c16_passwd_roundtrip_ex :
+  user_ok (mkUser "root" "x" 0 0 "Some Body,,," "/root" "/bin/sh") /\
+  user_ok (mkUser "" "" 4294967295 2147483648 "" "" "").
+Proof.
+  split; constructor; try (split; reflexivity); try reflexivity; vm_compute; (reflexivity || discriminate).
+Qed.
+
+(* [group_ok]: name and password as above, members free of ':' LF and ',', the
+   name does not start and the last member does not end with a blank, gid < 2^32,
+   the line fits.  For EVERY list of such groups GroupFile.Load returns each
+   group with its fields intact, except that an EMPTY member list comes back as
+   [""] ([norm_group]; finding C16-F6, refuted form below); so groups whose
+   member lists are non-empty round-trip exactly, and in every case writing the
+   read-back again reproduces the file. *)
+Theorem c16_group_roundtrip :
+  forall gs, Forall group_ok gs ->
+  load_groups (write_groups gs) = Ok (map norm_group gs) /\
+  (Forall (fun g => g_members g <> []) gs ->
+   load_groups (write_groups gs) = Ok gs /\ GroupsRoundTrip gs (load_groups (write_groups gs))) /\
+  (exists l, load_groups (write_groups gs) = Ok l /\ write_groups l = write_groups gs).
+Proof.
+  intros gs H. split; [exact (groups_readback gs H)|]. split.
+  - intro H2. split; exact (groups_roundtrip gs H H2).
+  - exact (groups_read_write_fixpoint gs H).
+Qed.
+Print Assumptions c16_group_roundtrip.
+
+Example c16_group_roundtrip_ex :
+  group_ok (mkGroup "wheel" "x" 10 ["root"; "u"; ""]) /\ g_members (mkGroup "wheel" "x" 10 ["root"; "u"; ""]) <> [] /\
+  group_ok (mkGroup "" "" 4294967295 [""]).
+Proof.
+  split; [|split; [discriminate|]];
+    (constructor; try (split; reflexivity); try (repeat constructor); try reflexivity; vm_compute; (reflexivity || discriminate)).
+Qed.
+
+(* the full statement (any member list) is false: a group without members is
+   written "g:x:5:" and read back with one member, the empty name (C16-F6) *)
+Theorem c16_group_empty_members_refuted :
+  group_ok witness_group /\ ~ GroupsRoundTrip [witness_group] (load_groups (write_groups [witness_group])) /\
+  groups_rt_tags [witness_group] (load_groups (write_groups [witness_group])) = ["viol:group-empty-members-read-as-one-empty-name"].
+Proof. exact groups_empty_members_refuted. Qed.
+Print Assumptions c16_group_empty_members_refuted.
+
+(* the validators run on the IMPLEMENTATION's read-back decide the readable statements *)
+Theorem c16_passwd_validator_decides : forall orig rb, users_rt_tags orig rb = [] <-> UsersRoundTrip orig rb.
+Proof. exact users_validator_decides. Qed.
+Print Assumptions c16_passwd_validator_decides.
+Theorem c16_group_validator_decides : forall orig rb, groups_rt_tags orig rb = [] <-> GroupsRoundTrip orig rb.
+Proof. exact groups_validator_decides. Qed.
+Print Assumptions c16_group_validator_decides.
